@@ -357,6 +357,25 @@ def ctor_cases():
             kw = {k_: perm(v_) for k_, v_ in base.items()}
             for pn, pf in (("none", lambda: None), ("chrom", chrom)):
                 add(f"SYS {cname}(order:{oname},{pn})", lambda fn=fn, kw=kw, pf=pf: fn(kw, pf()))
+        # three blocks (and the frames that belong to them) in every order: the object is the one built from the ascending order
+        if cname != "Transcript+CDS":
+            import itertools as _it
+
+            b3 = [(1, 3), (5, 8), (10, 12)]
+            f3 = [Z, T, O]
+            for perm in _it.permutations(range(3)):
+                def _three(fn=fn, perm=perm, cname=cname):
+                    kw = dict(starts=[b3[i][0] for i in perm], ends=[b3[i][1] for i in perm])
+                    if cname == "CDSInterval":
+                        kw["frames"] = [f3[i] for i in perm]
+                    o_ = fn(kw, None)
+                    got = [(b.start, b.end) for b in (o_ if cname == "CompoundInterval" else o_.chromosome_location).blocks]
+                    assert got == b3 and (o_.start, o_.end) == (1, 12), f"blocks {got} start/end {o_.start},{o_.end}"
+                    if cname == "CDSInterval":
+                        assert list(o_.frames) == f3, f"frames {[f.name for f in o_.frames]} no longer belong to their blocks"
+                    return o_
+
+                add(f"SYS {cname}(three blocks in order {perm})", _three)
         # a block nested inside the previous one (and one that only overlaps it): well-formed (end = the largest end) or refused
         for nname, st_, en_ in (("nested", [7, 8], [12, 10]), ("staggered", [6, 8], [10, 12]), ("nested-3", [6, 7, 9], [12, 9, 11])):
             kw = dict(base, starts=st_, ends=en_, **({"frames": [Z] * len(st_)} if "frames" in base else {}))
